@@ -15,11 +15,13 @@ import (
 	"os/signal"
 	"runtime"
 	"sync"
+	"sync/atomic"
 	"syscall"
 	"time"
 
 	"github.com/mgtv-tech/redis-GunYu/config"
 	"github.com/mgtv-tech/redis-GunYu/pkg/log"
+	usync "github.com/mgtv-tech/redis-GunYu/pkg/sync"
 	"github.com/mgtv-tech/redis-GunYu/syncer"
 
 	"verif/internal/prf"
@@ -32,6 +34,8 @@ type child struct {
 	ch     *syncer.StoreChannel
 	rng    *rand.Rand
 	rngMu  sync.Mutex
+	gcMu   sync.Mutex // collector passes never overlap the in-process reader checks
+	repMu  sync.Mutex
 	gcReq  chan struct{}
 	gcAck  chan struct{}
 }
@@ -110,6 +114,8 @@ func (c *child) faultEvent(ph int64) {
 
 // gcNow runs one collector pass and records whether it removed anything.
 func (c *child) gcNow() {
+	c.gcMu.Lock()
+	defer c.gcMu.Unlock()
 	id := c.ch.RunId()
 	l0, _ := c.ch.GetOffsetRange(id)
 	r0, _ := c.ch.GetRdb(id)
@@ -209,6 +215,8 @@ type aofFeeder struct {
 	ended    bool
 	fault    prf.Fault
 	faulted  *bool
+	faultOff *int64 // offset handed out when the limit was lowered
+	atEnd    func() // runs once, writer live and idle, before the source closes
 	rng      *rand.Rand
 }
 
@@ -216,6 +224,11 @@ func (f *aofFeeder) Read(p []byte) (int, error) {
 	if f.off >= f.end {
 		if !f.ended {
 			f.ended = true
+			if f.atEnd != nil {
+				// every chunk handed out so far is in the file (ingest is read-write-read) and
+				// the writer is parked in this Read: its Right() is f.off and stays there
+				f.atEnd()
+			}
 			f.c.shm.Store(prf.GenSlot(f.g, prf.GenLogDone), 1)
 			f.c.phase(prf.PhaseLogEnd)
 		}
@@ -229,7 +242,14 @@ func (f *aofFeeder) Read(p []byte) (int, error) {
 		gen := f.c.p.Gens[f.g]
 		if f.off-gen.L >= int64(f.fault.B*float64(gen.Log)) {
 			*f.faulted = true
-			f.c.setLimit(16+int64(f.fault.A*float64(f.c.p.LogSize)), f.fault.Kind)
+			*f.faultOff = f.off
+			if a := f.fault.A; a < 0.7 {
+				// cut inside one of the next chunks of the current segment: a partial write
+				f.c.setLimit(16+f.segFill+1+int64(a/0.7*float64(2*f.c.p.ChunkMax)), f.fault.Kind)
+			} else {
+				// anywhere in a segment's size range: refused with 0 bytes if the file is larger already
+				f.c.setLimit(16+int64((a-0.7)/0.3*float64(f.c.p.LogSize)), f.fault.Kind)
+			}
 		}
 	}
 	n := 1 + f.rng.Intn(f.c.p.ChunkMax)
@@ -251,6 +271,192 @@ func (f *aofFeeder) Read(p []byte) (int, error) {
 	f.c.shm.Add(prf.SlotHandedTotal, int64(n))
 	f.c.pace(f.rng)
 	return n, nil
+}
+
+// ---------------------------------------------------------------------------------------------
+// in-process checks (live cache, writer idle): what the cache reports valid must be readable
+
+type finding struct {
+	Kind   string         `json:"kind"` // violation / inconclusive
+	Sig    string         `json:"sig"`
+	What   string         `json:"what"`
+	Detail map[string]any `json:"detail"`
+}
+
+func (c *child) report(f finding) {
+	c.repMu.Lock()
+	defer c.repMu.Unlock()
+	b, _ := json.Marshal(f)
+	fh, err := os.OpenFile(c.p.Shm+".findings", os.O_WRONLY|os.O_CREATE|os.O_APPEND, 0o644)
+	if err != nil {
+		return
+	}
+	fh.Write(append(b, '\n'))
+	fh.Close()
+}
+
+const (
+	idlePolls    = 400 // x 5 ms of the child's own run time without a byte, writer idle
+	probeTimeout = 30 * time.Second
+)
+
+// consume reads [x, right) from an opened log reader and requires PRF bytes, arrival at right
+// (decided on quiescence: the writer is idle and the reader made no progress over idlePolls polls
+// while right > its position) and nothing beyond right.
+func (c *child) consume(ctx string, g int, rd syncer.ChannelReader, x, right int64) (ok bool) {
+	wait := usync.NewWaitCloser(nil)
+	rd.Start(wait)
+	defer func() { wait.Close(nil); rd.Close() }()
+	c.shm.Add(prf.SlotLiveReaders, 1)
+	want := right - x
+	var got atomic.Int64
+	var bad atomic.Int64
+	bad.Store(-1)
+	var endErr atomic.Value
+	done := make(chan struct{})
+	br := rd.IoReader()
+	key := prf.AofKey(c.p.Seed, g)
+	go func() {
+		defer close(done)
+		buf := make([]byte, 16<<10)
+		for got.Load() < want {
+			n := int64(len(buf))
+			if r := want - got.Load(); r < n {
+				n = r
+			}
+			m, err := br.Read(buf[:n])
+			if m > 0 {
+				if i := prf.Mismatch(buf[:m], key, x+got.Load()); i >= 0 {
+					bad.Store(got.Load() + int64(i))
+					got.Add(int64(m))
+					return
+				}
+				got.Add(int64(m))
+			}
+			if err != nil {
+				endErr.Store(err.Error())
+				return
+			}
+		}
+	}()
+	det := func() map[string]any {
+		l, r := c.ch.GetOffsetRange(c.ch.RunId())
+		d := map[string]any{"context": ctx, "reader_at": x, "right_at_the_time": right, "delivered_until": x + got.Load(), "range_now": []int64{l, r}, "generation": g}
+		if ents, err := os.ReadDir(c.p.Dir + "/" + c.ch.RunId()); err == nil {
+			fl := []string{}
+			for _, e := range ents {
+				if fi, err := e.Info(); err == nil {
+					fl = append(fl, fmt.Sprintf("%s(%d)", e.Name(), fi.Size()))
+				}
+			}
+			d["files"] = fl
+		}
+		return d
+	}
+	t0 := time.Now()
+	last, idle := int64(-1), 0
+	finished := false
+	for !finished {
+		select {
+		case <-done:
+			finished = true
+			continue
+		default:
+		}
+		time.Sleep(5 * time.Millisecond)
+		if gnow := got.Load(); gnow != last {
+			last, idle = gnow, 0
+		} else {
+			idle++
+		}
+		if idle >= idlePolls {
+			c.report(finding{"violation", "reader-stalls" + ctxSig(ctx),
+				fmt.Sprintf("reader opened at valid offset %d delivered [%d,%d) and then made no progress over %d polls although the writer is idle and the cache reports data up to %d", x, x, x+got.Load(), idlePolls, right), det()})
+			return false
+		}
+		if time.Since(t0) > probeTimeout {
+			c.report(finding{"inconclusive", "probe-watchdog", fmt.Sprintf("reader at %d still progressing after %v", x, probeTimeout), det()})
+			return false
+		}
+	}
+	c.shm.Add(prf.SlotLiveBytes, got.Load())
+	if b := bad.Load(); b >= 0 {
+		c.report(finding{"violation", "live-reader|wrong-byte", fmt.Sprintf("reader opened at %d served a byte the source never sent for offset %d", x, x+b), det()})
+		return false
+	}
+	if got.Load() < want {
+		e, _ := endErr.Load().(string)
+		d := det()
+		d["error"] = e
+		c.report(finding{"violation", "valid-offset-unreadable|midstream" + ctxSig(ctx),
+			fmt.Sprintf("reader opened at valid offset %d ended after [%d,%d) with %q although nothing was reset and the cache reports data up to %d", x, x, x+got.Load(), e, right), d})
+		return false
+	}
+	// arrived at right; the writer is idle, so nothing may follow
+	for i := 0; i < 10; i++ {
+		if k := br.Buffered(); k > 0 {
+			d := det()
+			d["extra_bytes"] = k
+			c.report(finding{"violation", "reader-delivers-beyond-right",
+				fmt.Sprintf("reader opened at %d delivered %d byte(s) beyond %d, the right edge the cache reports while its writer is idle", x, k, right), d})
+			return false
+		}
+		time.Sleep(time.Millisecond)
+	}
+	return true
+}
+
+func ctxSig(ctx string) string {
+	if ctx == "refused-write" {
+		return "-behind-refused-write"
+	}
+	return "|" + ctx
+}
+
+// sweep probes offsets of the reported range: reported valid => can be opened and read to the
+// right edge.
+func (c *child) sweep(ctx string, g int, extra []int64, rng *rand.Rand) {
+	c.gcMu.Lock()
+	defer c.gcMu.Unlock()
+	id := c.ch.RunId()
+	l, r := c.ch.GetOffsetRange(id)
+	if l < 0 || r <= l || prf.GenOf(l) != g {
+		return
+	}
+	c.shm.Add(prf.SlotLiveChecks, 1)
+	if ctx == "refused-write" {
+		c.shm.Add(prf.SlotLiveFault, 1)
+	} else {
+		c.shm.Add(prf.SlotLiveLag, 1)
+	}
+	offs := append([]int64{l, r - 1}, extra...)
+	for i := 0; i < 3; i++ {
+		offs = append(offs, l+rng.Int63n(r-l))
+	}
+	seen := map[int64]bool{}
+	for _, x := range offs {
+		if x < l || x >= r || seen[x] {
+			continue
+		}
+		seen[x] = true
+		if !c.ch.IsValidOffset(syncer.Offset{RunId: id, Offset: x}) {
+			continue
+		}
+		rd, err := c.ch.NewReader(syncer.Offset{RunId: id, Offset: x})
+		if err != nil {
+			c.report(finding{"violation", "valid-offset-unreadable" + ctxSig(ctx),
+				fmt.Sprintf("IsValidOffset(%d) is true (reported range [%d,%d]) but NewReader fails: %v", x, l, r, err),
+				map[string]any{"context": ctx, "reader_at": x, "range": []int64{l, r}, "error": err.Error(), "generation": g}})
+			continue
+		}
+		if !rd.IsAof() {
+			rd.Close()
+			continue
+		}
+		if !c.consume(ctx, g, rd, x, r) {
+			return // one witness per sweep is enough; a stall costs idlePolls
+		}
+	}
 }
 
 // ids the (modelled) source announces while it is in generation g: its replication id and the
@@ -336,13 +542,20 @@ func (c *child) fullSync(g int, startPointDone bool) (goOn bool) {
 
 // incrSync mirrors the incremental part of syncData: an aof writer at offset, fed until the
 // source closes the connection.
-func (c *child) incrSync(g int, offset int64) (goOn bool) {
+func (c *child) incrSync(g int, offset int64) (goOn bool) { return c.incrSyncLag(g, offset, false) }
+
+// incrSyncLag: lag = this is a restarted tool resuming incrementally; a reader is opened at the
+// resume offset and left unconsumed (a slow follower / output) while more than maxSize bytes
+// accumulate and the collector runs.
+func (c *child) incrSyncLag(g int, offset int64, lag bool) (goOn bool) {
 	gen := c.p.Gens[g]
 	ft := c.fault(g)
 	faulted := new(bool)
+	faultOff := new(int64)
+	end := gen.L + gen.Log
 	for {
 		c.phase(prf.PhaseLog)
-		af := &aofFeeder{c: c, g: g, key: prf.AofKey(c.p.Seed, g), off: offset, end: gen.L + gen.Log, fault: ft, faulted: faulted, rng: c.newRng()}
+		af := &aofFeeder{c: c, g: g, key: prf.AofKey(c.p.Seed, g), off: offset, end: end, fault: ft, faulted: faulted, faultOff: faultOff, rng: c.newRng()}
 		aw, err := c.ch.NewAofWritter(af, offset)
 		if err != nil {
 			if *faulted {
@@ -353,6 +566,39 @@ func (c *child) incrSync(g int, offset int64) (goOn bool) {
 			}
 			fail("NewAofWritter: %v", err)
 		}
+		id := c.ch.RunId()
+		var lagRd syncer.ChannelReader
+		if lag && c.p.MaxSize > 0 && c.p.MaxSize < 1<<24 {
+			if c.ch.IsValidOffset(syncer.Offset{RunId: id, Offset: offset}) {
+				if rd, err := c.ch.NewReader(syncer.Offset{RunId: id, Offset: offset}); err == nil && rd.IsAof() {
+					lagRd = rd
+					if e := offset + c.p.MaxSize + 3*c.p.LogSize; e > af.end && prf.GenOf(e) == g {
+						af.end, end = e, e
+					}
+				} else if err == nil {
+					rd.Close()
+				}
+			}
+		}
+		resumedAt := offset
+		switch {
+		case lagRd != nil:
+			af.atEnd = func() {
+				if c.p.MaxSize > 0 {
+					c.gcNow()
+				}
+				c.sweep("lagging-reader-after-collector", g, []int64{resumedAt, resumedAt + 1, resumedAt + c.p.LogSize/2}, af.rng)
+				c.gcMu.Lock()
+				_, r := c.ch.GetOffsetRange(id)
+				c.consume("lagging-reader-after-collector", g, lagRd, resumedAt, r)
+				c.gcMu.Unlock()
+			}
+		case *faulted:
+			fo := *faultOff
+			af.atEnd = func() {
+				c.sweep("refused-write", g, []int64{fo - 1, fo - c.p.LogSize/3, resumedAt - 1, resumedAt}, af.rng)
+			}
+		}
 		aw.Start()
 		_ = aw.Wait(context.Background()) // "reader error: EOF" when the source closes
 		aw.Close()
@@ -362,6 +608,9 @@ func (c *child) incrSync(g int, offset int64) (goOn bool) {
 			}
 			return true
 		}
+		if lagRd != nil {
+			lagRd.Close()
+		}
 		if !*faulted {
 			fail("aof writer ended before the source closed: offset %d of %d", af.off, af.end)
 		}
@@ -369,18 +618,32 @@ func (c *child) incrSync(g int, offset int64) (goOn bool) {
 		// source continues from there
 		c.restoreLimit()
 		c.faultEvent(prf.PhaseLogFail)
+		// the writer is gone: whatever is reported valid now must be readable up to the reported
+		// right edge, and not beyond it
+		c.sweep("refused-write", g, []int64{*faultOff - 1, *faultOff - c.p.LogSize/3}, af.rng)
 		ft = prf.Fault{}
-		sp, err := c.ch.StartPoint(c.sourceIds(g))
+		lag = false
+		// either the full start-up bookkeeping (StartPoint(ids) re-scans the directory) or, for
+		// half of the chains, the position the live cache itself reports (StartPoint(nil), no
+		// re-scan - what a leader answers its followers with)
+		ids := c.sourceIds(g)
+		if c.fault(g).DelayUs%2 == 0 {
+			ids = nil
+		}
+		sp, err := c.ch.StartPoint(ids)
 		if err != nil {
 			fail("StartPoint(after refused write): %v", err)
 		}
-		if sp.RunId != gen.RunId || prf.GenOf(sp.Offset) != g || sp.Offset < gen.L || sp.Offset > gen.L+gen.Log {
+		if sp.RunId != gen.RunId || prf.GenOf(sp.Offset) != g || sp.Offset < gen.L {
 			return true // nothing usable left: a full sync of the next generation follows
 		}
 		if err := c.ch.SetRunId(gen.RunId); err != nil {
 			fail("SetRunId: %v", err)
 		}
 		offset = sp.Offset
+		if offset >= end { // keep something to append after the re-session
+			end = offset + 2*c.p.LogSize
+		}
 	}
 }
 
@@ -432,11 +695,11 @@ func main() {
 		}
 		gen := c.p.Gens[g]
 		if c.shm.Load(prf.GenSlot(g, prf.GenStarted)) != 0 && sp.RunId == gen.RunId &&
-			prf.GenOf(sp.Offset) == g && sp.Offset >= gen.L && sp.Offset <= gen.L+gen.Log {
+			prf.GenOf(sp.Offset) == g && sp.Offset >= gen.L {
 			if err := c.ch.SetRunId(gen.RunId); err != nil {
 				fail("SetRunId: %v", err)
 			}
-			goOn = c.incrSync(g, sp.Offset)
+			goOn = c.incrSyncLag(g, sp.Offset, true)
 			next = g + 1
 		} else {
 			next = g
